@@ -169,7 +169,6 @@ let () =
         let levels = levels_of_text !prec in
         let is_op c = is_term c && c <> 'i' && c <> 'l' && c <> 'r' in
         let expr_ops =   (* Some ops when the grammar is E -> E op E | l E r | i *)
-          if !prec = "" && false then None else
           let ops = ref [] and okf = ref (start = 'E' && nts = "E") in
           List.iter (fun ps -> match ps with
             | "E:lEr" | "E:i" -> ()
